@@ -4,3 +4,25 @@
 // This file holds comments only and is compiled only with the `verif` build tag.
 
 package http2
+
+// ---------------------------------------------------------------------------
+// strings.go
+// ---------------------------------------------------------------------------
+
+//@ func hasUpperCase
+//@ props C20
+//@ pure
+//@ loop 0: invariant none: forall(i, 0, rangeindex + 1, !(b[i] >= 'A' && b[i] <= 'Z'))
+//@ ensures iff: r0 <==> exists(i, 0, len(b), b[i] >= 'A' && b[i] <= 'Z')
+
+//@ func parseUint
+//@ props C20 C13
+//@ pure
+//@ loop 0: invariant digits: forall(i, 0, rangeindex + 1, b[i] >= '0' && b[i] <= '9')
+//@ loop 0: invariant value: n == spec.decp(b, rangeindex + 1) && n >= 0
+//@ ensures sound: r1 == nil ==> len(b) > 0 && forall(i, 0, len(b), b[i] >= '0' && b[i] <= '9')
+//@ # completeness is stated over prefixes (decp is monotone in the prefix length for digit strings,
+//@ # so "every prefix fits" is "the value fits"; the monotonicity induction is not machine-checked)
+//@ ensures complete: len(b) > 0 && forall(i, 0, len(b), b[i] >= '0' && b[i] <= '9') &&
+//@ |   forall(k, 1, len(b) + 1, spec.decp(b, k) <= 9223372036854775807) ==> r1 == nil
+//@ ensures value: r1 == nil ==> r0 == spec.decp(b, len(b))
